@@ -88,12 +88,12 @@ def check_copydimension(ctx, rule='R-UNLIM'):
         ok_pnc = bool(names) and any(isinstance(s, ast.Expr) and norm(s) == '%s.setunlimited(unlimited)' % names[0] for s in e)
     # optional parameters are tested with `is None` (0 is a valid length, '' is not a valid key but truthiness would also swallow 0)
     from .. import lints
-    tg = lints.truthy_optional_guards(fn, ('dimlen', 'key', 'unlimited'))
+    tg = lints.truthy_optional_guards(fn, ('dimlen', 'unlimited'))   # key is a name: '' is not a valid key, so truthiness is harmless there
     if tg:
         for st in tg:
             ctx.rule('R-NONEGUARD', "optional numeric parameters are tested with 'is None' (0 is a valid value)")
             ctx.violation(Finding('R-NONEGUARD', 'core/_files.py', 'PseudoNetCDFFile.copyDimension', st, "optional parameter tested with '%s': a requested length of 0 (an empty selection) is "
-                                  'treated as "not given" and the dimension keeps its source length' % norm(st.test)), oid='none-guard')
+                                  'treated as "not given" and the dimension keeps its source length' % norm(st.test if isinstance(st, ast.If) else st.value)), oid='none-guard')
     else:
         ctx.rule('R-NONEGUARD', "optional numeric parameters are tested with 'is None' (0 is a valid value)")
         ctx.ok('R-NONEGUARD', 'copyDimension: optional parameters tested with is None', where, 'dimlen/key/unlimited')
@@ -309,7 +309,13 @@ def check_axisperm(ctx):
     elif 'outvals.take(0, axis=di)' in t:
         ctx.violation(Finding('R-AXISPERM', 'core/_files.py', q, fn.body[-1], 'singleton axes are removed in ascending order: after the first take the remaining axis indices have shifted'))
     else:
-        ctx.undec('R-AXISPERM', q, where, 'removal idiom not recognised')
+        sq = [c for c in ast.walk(fn) if isinstance(c, ast.Call) and (dotted(c.func) or '').split('.')[-1] == 'squeeze'
+              and kw(c, 'axis') is None and len(c.args) <= (1 if (dotted(c.func) or '').startswith('np.') else 0)]
+        if sq:
+            ctx.violation(Finding('R-AXISPERM', 'core/_files.py', q, api.stmt_of(sq[0]), 'the data lose *every* length-1 axis (squeeze without axis=) while the dimension names lose only the '
+                                  'removed dimensions: with dimkey given, a kept singleton dimension makes the shapes disagree and the operation raises'))
+        else:
+            ctx.undec('R-AXISPERM', q, where, 'removal idiom not recognised')
 
 
 VARSTORE_OK = {
